@@ -43,6 +43,8 @@ def cases(tier, seed):
         N = int((0, 1, 2, 3, 5, 8, 13, 21, 40)[int(rng.integers(0, 9))])
         out.append({"N": N, "nops": int(rng.integers(1, 9)), "iseed": int(rng.integers(0, 2**31)),
                     "cost": 1 + N / 20})
+    if tier == "thorough":
+        out.append({"kind": "suite", "cost": 400.0, "iseed": 0})
     return out
 
 
@@ -454,6 +456,12 @@ def rejection_probes(case, rng):
 
 
 def run(case):
+    if case.params.get("kind") == "suite":
+        from vcheck.suite_run import run_suite_with_contracts
+
+        run_suite_with_contracts(case, ('K4',))
+        case.nontrivial("suite")
+        return
     from vcheck import instr
 
     p = case.params
